@@ -228,6 +228,24 @@ def gen_padded(rng, tier, idx):
     a_cross = rng.random() < 0.5
     a = txn("a", ids_a, a_cross)
     b = txn("b", ids_b, not a_cross)
+    rename = directed and rng.random() < 0.25
+    if rename:
+        # "rename": one document is the sole holder of a value / keyword / facet / words; one transaction moves
+        # it to a fresh one while the other gives a second document the old one (seeded C19_H re-keyed the
+        # posting object instead of emptying it)
+        sole = [rng.choice([4, 5]), rng.choice([8, 16]), rng.choice([3, 5]), rng.choice([31, 37]), rng.choice([31, 37])]
+        fresh = [7, 24 - sole[1], 4, 43, 43]
+        d1, d2 = ids_a[0], ids_b[0]
+        cmds.insert(len(cmds) - 1, ["base", k[0], "index", d1] + sole)
+        k[0] += 1
+        mover, adder = ("a", "b") if rng.random() < 0.5 else ("b", "a")
+        mv = (mover, "reindex", d1 if mover == "a" else d2, fresh)
+        ad = (adder, "index", d2 if mover == "a" else d1, list(sole))
+        if mover == "b":
+            # the sole holder must belong to the mover's pool: swap the roles of the two documents
+            cmds[-2][3] = d2
+        a = [mv] if mover == "a" else [ad]
+        b = [ad] if mover == "a" else [mv]
     ia = ib = 0
     while ia < len(a) or ib < len(b):
         if ib >= len(b) or (ia < len(a) and rng.random() < 0.5):
@@ -244,7 +262,9 @@ def gen_padded(rng, tier, idx):
     # look like base, winner, loser in that order (seeded change C19_C kept per-connection state across abort)
     cmds.append([rng.choice(["check", "retrycheck"])])
     r = rng.random()
-    if trees and r < 0.7:
+    if rename:
+        present = [rng.choice(c09.ALL)]      # one index kind alone (a second kind would conflict anyway)
+    elif trees and r < 0.7:
         present = [rng.choice(["i3", "i4"])] if r < 0.6 else ["i3", "i4"]
     elif r < 0.25:
         present = list(c09.ALL)
